@@ -645,7 +645,13 @@ func (m *mappedFile) lookup(name string) (v *atomic.Uint64, headOff, head uint32
 	headOff = m.hdrLen + hashOff + h*4
 	head = m.load32(headOff)
 	off := head
-	for off != 0 {
+	// A well-formed chain has at most one record per recordUnit bytes of file;
+	// a longer walk means the chain is cyclic (corrupt).
+	maxSteps := len(m.mapping.Data) / recordUnit
+	for steps := 0; off != 0; steps++ {
+		if steps > maxSteps {
+			return nil, 0, 0, false
+		}
 		ename, next, v, ok := m.entryAt(off)
 		if !ok {
 			return nil, 0, 0, false
